@@ -511,6 +511,13 @@ class C10(core.Check):
         for i in range(self.runs[tier]):
             rng = core.rng_for(seed, PROP, i)
             cfg = gen_cfg(rng, real_frac=self.real_frac[tier])
+            if i in (1, 2, 3):
+                # three real surface-hopping runs in every batch (real CIS electronic structure, orbital phase
+                # tracking across the resume): the stratum that needs molecular_orbitals in the checkpoint
+                cfg = gen_cfg(rng, real_frac=1.0, engines=["sh"])
+                cfg["steps"] = 5
+                cfg["out"]["ckpt"] = 2
+                cfg["out"]["h5"].update(data=1, coordinates=1, nonadiabatic=1)
             io_seam = rng.random() >= 0.15
             recs.append({"i": i, "cfg": cfg, "io_seam": io_seam, "fault_plan": gen_fault_plan(rng, io_seam)})
         return recs
